@@ -42,7 +42,10 @@ RULE = ("cases: random interleavings of 6-30 ops over save_all(v) / thread step 
         "(str/int/float/bool/None/list) so a half-written file never equals a saved value; (b) machine-variable histories "
         "of 4-16 ops over configure(persist, expire_secs)/set(value incl. None)/remove/reboot at times chosen around the "
         "expiry instants (equal, +-1 s), every reboot going through a real YAML file. non-trivial = the thread completed "
-        "at least one write or a fault was injected (a), an expiry or an intermediate reboot occurs (b); distinct = the "
+        "at least one write or a fault was injected (a); a shutdown is either the bare thread_stopper or the machine's own stop "
+        "sequence (the real MachineController._do_stop on a stub machine) whose 'shutdown' event handlers hand over further data "
+        "(1-8 saves / thread steps) before the threads may be told to stop; injected write failures happen INSIDE the real YAML "
+        "dump (the stream accepts half of the text and raises), an expiry or an intermediate reboot occurs (b); distinct = the "
         "op list")
 TRUSTED = [
     "Model/Writer.lean is hand-written; tied to mpf/core/data_manager.py (_writing_thread, save_all) and "
@@ -415,7 +418,7 @@ class Rig:
             at, disk, 1 if self.dirty.ev.is_set() else 0, 1 if self.FileManager.is_busy else 0,
             str(max(data)) if data else "?")
 
-    def apply(self, op):
+    def apply(self, op, sub=None):
         """returns the observation line, or 'not-enabled'"""
         k = op[0]
         at = self.sched.at
@@ -424,6 +427,27 @@ class Rig:
             self.dm.save_all(payload(op[1]))
         elif k == "shutdown":
             self.stopper.set()
+        elif k == "mstop":
+            # the machine's own stop sequence (the REAL MachineController._do_stop, run on a stub machine): the 'shutdown'
+            # event is posted and processed - its handlers hand over data (the sub-ops, played through `sub`) - and only then
+            # may the worker threads be told to stop
+            from mpf.core.machine import MachineController
+            import logging
+            rig = self
+
+            class Ev:
+                def post(self, event, **kw):
+                    pass
+
+                def process_event_queue(self):
+                    for o in op[1]:
+                        sub(o)
+            stub = SimpleNamespace(is_shutting_down=False, log=logging.getLogger("c15-stub"), events=Ev(),
+                                   thread_stopper=self.stopper)
+            # MachineController.shutdown itself (devices, platforms, sockets, loop) is outside C15: of it only the
+            # thread_stopper.set() matters here
+            stub.shutdown = lambda: rig.stopper.set()
+            MachineController._do_stop(stub)
         elif k == "step":
             if at in ("done", "dead"):
                 return "not-enabled"
@@ -483,7 +507,18 @@ def gen_ops(r):
                 n += 1
                 ops.append(["save", n])
         elif k < 0.24:
-            ops.append(["shutdown"])
+            if r.random() < 0.5:
+                ops.append(["shutdown"])
+            else:
+                # a machine stop whose 'shutdown' event handlers hand over data while the writer thread keeps running
+                subs = []
+                for _ in range(r.randint(1, 8)):
+                    if r.random() < 0.35:
+                        n += 1
+                        subs.append(["save", n])
+                    else:
+                        subs.append(["step"])
+                ops.append(["mstop", subs])
         elif k < 0.25 and faults:
             ops.append(["crash", r.random() < 0.6])
             break
@@ -509,10 +544,11 @@ def run_case(ops, model=None, initial_file=True, tails=True, tail_same=False):
         def play(op):
             nonlocal last_saved, stopped, injected
             before = rig.sched.at
-            line = rig.apply(op)
+            line = rig.apply(op, play)
             mline = None
             if model is not None:
-                mline = model.ask(" ".join([op[0]] + ([str(op[1])] if op[0] == "save" else [])))
+                mline = model.ask("shutdown" if op[0] == "mstop" else
+                                  " ".join([op[0]] + ([str(op[1])] if op[0] == "save" else [])))
             if line == "not-enabled":
                 if mline is not None:
                     out["cmp"].append((op, line, mline))
@@ -522,7 +558,7 @@ def run_case(ops, model=None, initial_file=True, tails=True, tail_same=False):
                 last_saved = op[1]
                 if stopped:
                     out["save_after_stop"] = True
-            elif op[0] == "shutdown":
+            elif op[0] in ("shutdown", "mstop"):
                 stopped = True
             elif op[0] in ("fail", "crash"):
                 injected = True
